@@ -27,10 +27,33 @@ func ApplyDefaults(r *validate.Result) {
 		for _, s := range schemata {
 			if s.Default != nil {
 				if _, found := key.Object()[key.Field()]; !found {
-					key.Object()[key.Field()] = s.Default
+					key.Object()[key.Field()] = cloneValue(s.Default) // the maps and slices of a default belong to the schema
 					break LookForDefaultingScheme
 				}
 			}
 		}
+	}
+}
+
+// cloneValue copies a JSON value (as returned by json.Unmarshal): maps and slices are
+// duplicated at every depth, scalars are returned as they are.
+func cloneValue(v interface{}) interface{} {
+	switch val := v.(type) {
+	case map[string]interface{}:
+		out := make(map[string]interface{}, len(val))
+		for k, e := range val {
+			out[k] = cloneValue(e)
+		}
+
+		return out
+	case []interface{}:
+		out := make([]interface{}, len(val))
+		for i, e := range val {
+			out[i] = cloneValue(e)
+		}
+
+		return out
+	default:
+		return v
 	}
 }
